@@ -546,8 +546,10 @@ vbi_bool vbi_proxy_msg_handle_read( VBIPROXY_MSG_STATE * pIO,
             err = TRUE;
       }
 
-      if ((err == FALSE) && (pIO->readOff >= sizeof(VBIPROXY_MSG_HEADER)))
-      {  /* in read phase two: read the complete message into the allocated buffer */
+      if ((err == FALSE) && (result != FALSE) &&
+          (pIO->readOff >= sizeof(VBIPROXY_MSG_HEADER)))
+      {  /* in read phase two: read the complete message into the allocated buffer
+         ** (never after an illegal length: readLen - readOff would wrap or exceed the buffer) */
          assert (pIO->readLen <= (size_t) max_read_len);
 
          len = recv(pIO->sock_fd, (char*)pReadBuf + pIO->readOff,
